@@ -11,6 +11,7 @@ MODULES = [
  ("CoseSystem.tla", "in-memory layers: `LayerProtItem` (raw bytes preferred), `AlgOfBucket` (lookup by label value), `AlgEq`, `WireAlgIs`, spy-call helpers"),
  ("CoseModel.tla", "life cycle of a Sign1 / untagged Sign1 / standalone Signature object as a state machine (`Step`): sign, verify, marshal, unmarshal, caller edits, bytes rewritten in transit; symbolic keys/signatures; nine properties model-checked"),
  ("CsModel.tla", "life cycle of a countersignature (RFC 9338): parent, countersignature object, abbreviated bytes, wire; making (full/abbreviated), verifying, attaching, serialising, parsing, caller edits, bytes rewritten in transit, moving signature bytes between the two forms; nine properties model-checked (core scope exhaustively, full scope to a bounded number of steps)"),
+ ("SignModel.tla", "life cycle of a COSE_Sign message with two signature slots: signing with a list of signers (failing / empty-handed ones), verifying with lists of 1-3 verifiers, serialising, parsing, caller edits of body, slot signatures (emptied, garbage, the other slot's bytes) and slot algorithms; eight properties model-checked (core scope exhaustively: 95 256 states / 22.4 M transitions; full scope to a bounded depth)"),
  ("CoseKey.tla", "COSE_Key: `AcceptedKeyOK`, `SizesOK`, `CurveOKFor`, `DeriveAlg`, `SignerAllowed`, `VerifierAllowed`"),
  ("CoseCrypto.tla", "`NewSignerVerdict` / `NewVerifierVerdict` decision tables, `HashOf`, `RenderRS` / `I2OSP`"),
  ("Mutations.tla, CoseBases.tla", "structural mutation operators (Appendix B), valid re-spellings, base message trees"),
@@ -23,7 +24,7 @@ MODULES = [
 PIPE = {
  "C01": "Gen_C01 -> memflow -> Trace_C01",
  "C02": "Gen_Wire(respell) -> wireflow -> Trace_Wire[C02]; Gen_C02Mem -> memflow -> Trace_C02Mem",
- "C03": "Gen_Wire(mut) -> wireflow -> Trace_Wire[C03]; CoseModel MC + Gen_Model -> memflow -> Trace_Model[C03:]; CsModel stage [C03:]",
+ "C03": "Gen_Wire(mut) -> wireflow -> Trace_Wire[C03]; CoseModel MC + Gen_Model -> memflow -> Trace_Model[C03:]; CsModel stage [C03:]; SignModel stage [C03:]",
  "C04": "Gen_C04 -> memflow -> Trace_C04; CoseModel stage [C04:]; CsModel stage [C04:]",
  "C05": "Gen_C05 (+ byte-mutation driver) -> C05 exec (all five decoders) -> Trace_C05",
  "C06": "Gen_C05 + Gen_C15 + Gen_C13 images + byte-mutation driver -> nopanic -> Trace_C06",
@@ -31,7 +32,7 @@ PIPE = {
  "C08": "Gen_C08 + Gen_C13 -> hdrgrid (6 encodings x 2 processes) -> Trace_C08; Gen_C08Seq + Gen_C12 producers -> memflow -> Trace_C08Seq",
  "C09": "Gen_Wire(respell) -> wireflow -> Trace_Wire[C09]; CoseModel stage [C09:]; CsModel stage [C09:]",
  "C10": "Gen_C10 -> memflow -> Trace_C10; CsModel MC + Gen_Cs -> memflow -> Trace_Cs[C10:]",
- "C11": "Gen_C11 -> memflow -> Trace_C11",
+ "C11": "Gen_C11 -> memflow -> Trace_C11; SignModel MC + Gen_Sg -> memflow -> Trace_Sg[C11:]",
  "C12": "Gen_C12 -> memflow (+ sessions: one world, one verifier) -> Trace_C12",
  "C13": "Gen_C13 -> hdrgrid -> Trace_C13",
  "C14": "Gen_C14 (toy-field MC + fixtures) + keyrt driver -> keyrt -> Trace_C14",
@@ -40,7 +41,7 @@ PIPE = {
  "C17": "Gen_C17 -> factory / digest -> Trace_C17",
  "C18": "Gen_C18 (thread model MC, schedules) -> conc (gated goroutines); Gen_C18Seq -> memflow; racestress under -race -> Trace_C18",
  "C19": "Gen_C19 -> memflow -> Trace_C19; CoseModel stage [C19:]; CsModel stage [C19:]",
- "C20": "Gen_C20 -> memflow -> Trace_C20; CoseModel stage [C20:]; CsModel stage [C20:]",
+ "C20": "Gen_C20 -> memflow -> Trace_C20; CoseModel stage [C20:]; CsModel stage [C20:]; SignModel stage [C20:]",
 }
 
 
